@@ -4,10 +4,13 @@ package main
 
 import (
 	"github.com/vulcand/oxy/v2/zverif/c01"
+	"github.com/vulcand/oxy/v2/zverif/c02"
 	"github.com/vulcand/oxy/v2/zverif/c04"
 )
 
 func init() {
+	parts["c02s"] = c02.RunSched
+	finders["c02s"] = c02.Find
 	parts["c01s"] = c01.RunSched
 	finders["c01s"] = c01.Find
 	parts["c04"] = c04.Run
